@@ -94,6 +94,10 @@ def check_lth(run, pkg, weighted):
     # ---- value
     val = ev.data["value"]
     red = None
+    post_den = None
+    if weighted and val[0] == "bin" and val[1] == "/" and val[2][0] == "call" and val[2][1] in (".sum", "numpy.sum"):
+        # sum(w * kernel) / D : normalisation applied after the sum
+        post_den, val = val[3], val[2]
     if val[0] == "call" and val[1] in (".mean", ".sum", "numpy.mean", "numpy.sum") and len(val[2]) == 1 and not val[3]:
         red = val[1].split(".")[-1]
         body = val[2][0]
@@ -166,11 +170,14 @@ def check_lth(run, pkg, weighted):
            witness=None if okr else "mean of normalised weights x kernel: divided by cn a second time", loc=loc)
     okw = False
     detail = show(wfac)[:120] if wfac else "no weight factor"
+    if post_den is not None and wfac is not None and not (wfac[0] == "bin" and wfac[1] == "/"):
+        wfac = ("bin", "/", wfac, post_den)        # (sum w k) / D == sum (w / D) k for a scalar D
     if wfac is not None and wfac[0] == "bin" and wfac[1] == "/":
         w, den = wfac[2], wfac[3]
         okden = den in (("call", ".sum", (("call", "numpy.abs", (w,), ()),), ()), ("call", "numpy.sum", (("call", "numpy.abs", (w,), ()),), ()),
                         ("call", ".sum", (("call", "numpy.absolute", (w,), ()),), ()))
-        plain_sum = den in (("call", ".sum", (w,), ()), ("call", "numpy.sum", (w,), ()))
+        plain_sum = den in (("call", ".sum", (w,), ()), ("call", "numpy.sum", (w,), ()), ("call", "numpy.abs", (("call", ".sum", (w,), ()),), ()),
+                            ("call", "builtins.abs", (("call", ".sum", (w,), ()),), ()), ("call", "numpy.abs", (("call", "numpy.sum", (w,), ()),), ()))
         run.ob("R-ALG", fq, "weighted:normalised", okden, "weights are divided by the sum of their absolute values (|psi| <= 1 also with negative weights)", show(den)[:80],
                witness=None if okden else ("weights 1, -1: division by zero / |psi| > 1" if plain_sum else "weights not normalised by sum |w|"), loc=loc)
         okal = Wt is not None and is_nbr_slice_of(w, Wt, NL, i)
